@@ -10,6 +10,7 @@
 #include "c02_large.hpp"
 #include "c02_vector.hpp"
 #include "listlike.hpp"
+#include "long_history.hpp"
 #include <cmath>
 #include <cstring>
 #include <limits>
@@ -594,6 +595,83 @@ namespace c02
         mc::outcome(mc::fmt("%d/%d", n, op));
     }
 
+    // ------------------------------------------------------------------ ranges of a different, convertible element type
+    // vector<To>(const From*, const From*): every element is converted; the source is an exactly-sized heap block.
+    template <class Vec, class To, class From> void converting_case(const string &variant, const char *what, size_t len)
+    {
+        From *src = (From *)malloc(len * sizeof(From) + (len ? 0 : 1));
+        std::vector<To> want;
+        for (size_t i = 0; i < len; i++)
+        {
+            src[i] = (From)(i % 2 ? 200 - (int)i : 3 + (int)i * 37);
+            want.push_back((To)src[i]);
+        }
+        mc::crash_context("C02.%s.ctor_range_converting.%s.crash", variant.c_str(), what);
+        {
+            Vec v((const From *)src, (const From *)src + len);
+            bool ok = v.size() == want.size();
+            for (size_t i = 0; ok && i < want.size(); i++)
+                if (!(v[i] == want[i]))
+                    ok = false;
+            if (!ok)
+                mc::violation(mc::fmt("C02.%s.ctor_range_converting.contents", variant.c_str()), "vector from a range of %zu %s: size %zu (expected %zu) or elements differ from the converted source values", len,
+                              what, (size_t)v.size(), want.size());
+        }
+        free(src);
+    }
+    template <class Tr> void converting_range_body(const string &variant)
+    {
+        int c = mc::choose(5 * 8);
+        int pair = c / 8;
+        size_t len = c % 8 == 7 ? 300 : c % 8;
+        mc::describe("%s: pointer range of %zu elements of another type (pair %d)", variant.c_str(), len, pair);
+        mc::nontrivial();
+        switch (pair)
+        {
+        case 0:
+            converting_case<typename Tr::template vec<double>, double, int>(variant, "int_to_double", len);
+            break;
+        case 1:
+            converting_case<typename Tr::template vec<long>, long, short>(variant, "short_to_long", len);
+            break;
+        case 2:
+            converting_case<typename Tr::template vec<int>, int, unsigned char>(variant, "uchar_to_int", len);
+            break;
+        case 3:
+            converting_case<typename Tr::template vec<float>, float, double>(variant, "double_to_float", len);
+            break;
+        default:
+            converting_case<typename Tr::template vec_default<double>, double, int>(variant, "int_to_double_default_allocator", len);
+            break;
+        }
+        mc::outcome(mc::fmt("%d/%zu", pair, len));
+    }
+
+    // ------------------------------------------------------------------ long histories on the same objects
+    template <class Tr> void vector_long_history_body(const string &name)
+    {
+        int c = mc::choose(3 * 3);
+        static const int seeds[3] = {1, 5, 11};
+        int steps = mc::thorough() ? 300000 : 70000, u = c / 3, seed = seeds[c % 3];
+        mc::describe("%s: universe %d, stride seed %d, %d operations on the same two vectors", name.c_str(), u, seed, steps);
+        mc::nontrivial();
+        if (u == 0)
+        {
+            VecModel<Tr, Tracked> m(box(), name + "_tracked");
+            lh::long_history(m, "C02." + name + "_tracked", steps, seed);
+        }
+        else if (u == 1)
+        {
+            VecModel<Tr, int> m(box(), name + "_int");
+            lh::long_history(m, "C02." + name + "_int", steps, seed);
+        }
+        else
+        {
+            VecModel<Tr, Tracked> m(box_wide(), name + "_tracked");
+            lh::long_history(m, "C02." + name + "_tracked", steps, seed);
+        }
+    }
+
     template <class Tr> void register_extra()
     {
         string n = Tr::name;
@@ -606,6 +684,8 @@ namespace c02
         mc::add_check("extra_" + n + "_emplace_multiarg", [n] { emplace_multiarg_body<typename Tr::template vec<ll::ListLike>, typename Tr::template vec<std::string>>(n); });
         mc::add_check("extra_" + n + "_address_of_overloaded", [n] { unusual_element_body<Tr, trk::Amp, true>(n + "_address_of_overloaded"); });
         mc::add_check("extra_" + n + "_move_only", [n] { unusual_element_body<Tr, trk::MoveOnly, false>(n + "_move_only"); });
+        mc::add_check("extra_" + n + "_converting_range", [n] { converting_range_body<Tr>(n); });
+        mc::add_check("extra_" + n + "_long_history", [n] { vector_long_history_body<Tr>(n); });
         mc::add_check("extra_" + n + "_throwing_elements", [n] { throwing_body<Tr>(n + "_tracked"); });
     }
 }
